@@ -460,21 +460,27 @@ def xff11_decode(h):
     h.cover("xFF11 decode returns a message")
 
 
-ABILITY_EXTRA_MAX = 26
-
-
 @oset("at5.xFF11.decode-longer-record", ["C17", "C05"], ABILITY_FNS[2:],
-      bounded=f"one record announcing 24+E following bytes, E = 1..{ABILITY_EXTRA_MAX}",
       assumptions=["len(payload) == sub-header.message_length (what the receive path hands to a sub-decoder)"])
 def xff11_decode_longer(h):
     """C17: "status records longer than the known layout are decoded from their known prefix".  One AC
-    whose record announces E more following bytes than the 24 known today (a newer console)."""
-    extra = h.choice("extra_bytes", list(range(1, ABILITY_EXTRA_MAX + 1)))
-    buf = h.bytes("payload", ABILITY_RECORD + extra)
-    b = h.items(buf)
-    h.assume(b[1] == ABILITY_KNOWN_FOLLOWING + extra, "the record announces its real length")
+    whose record announces E >= 1 more following bytes than the 24 known today (a newer console); every E
+    the length byte can express (unbounded: symbolic E, loop contract on the decode loop)."""
+    extra = h.int("extra_bytes", 1, 255 - ABILITY_KNOWN_FOLLOWING)
+    mlen = ABILITY_RECORD + extra
+    buf = h.abytes("payload")
+    h.assume(h.length(buf) == mlen, "the receive path reads exactly message_length payload bytes")
+    h.assume(_byte_at(h, buf, 1) == ABILITY_KNOWN_FOLLOWING + extra, "the one record announces its real length")
     dec = h.new(XABL + ":AcAbilityDecoder")
-    r = h.method(dec, "decode", buf, at5_ext_subheader(h, ID_ABILITY, ABILITY_RECORD + extra))
+
+    def per_record(rec, b, k):
+        # only the first 26-byte step is a record under the vendor reading ("exactly one record" below)
+        h.assume(k == 0, "the vendor reading has one record: at offset 0")
+        check_ability_record(h, rec, b, "known prefix: ")
+
+    if h.symbolic:
+        _install_record_loop(h, XABL + ":AcAbilityDecoder.decode", "ac_abilities", ABILITY_RECORD, mlen, per_record, "xFF11")
+    r = h.method(dec, "decode", buf, at5_ext_subheader(h, ID_ABILITY, mlen))
     h.oblige("returns or rejects", only_rejects(h, r))
     h.oblige("a record longer than the known layout is not rejected for its length",
              Or(r.ok, r.raised("UnicodeDecodeError")))
@@ -485,8 +491,14 @@ def xff11_decode_longer(h):
     h.oblige("decoded as an ability message", ok)
     if not ok:
         return
-    g = h.elems(h.attr(m, "ac_abilities"))
-    h.oblige("exactly the one announced record is decoded (the extra bytes are skipped, not read as another AC)", len(g) == 1)
-    if len(g) >= 1:
-        check_ability_record(h, g[0], b[:ABILITY_RECORD], "known prefix: ")
+    g = h.attr(m, "ac_abilities")
+    if h.symbolic:
+        from pyvc.loops import SpecList
+        count = g.n if isinstance(g, SpecList) else len(g)
+    else:
+        g = h.elems(g)
+        count = len(g)
+        if g:
+            per_record(g[0], list(buf[:ABILITY_RECORD]), 0)
+    h.oblige("exactly the one announced record is decoded (the extra bytes are skipped, not read as another AC)", count == 1)
     h.oblige("nothing left over", h.length(h.attr(r.value, "remaining")) == 0)
